@@ -197,6 +197,11 @@ def run(ctx):
             if v[2][0] == "f":
                 assigned.setdefault(v[2][1], []).append(norm_each(L.lift(v[3]), f.adts))
             v = v[1]
+        if isinstance(v, tuple) and v and v[0] == "agg":
+            # the builder value as a whole (fields havocked one by one inside the loops)
+            for n_, x_ in v[4]:
+                if not (isinstance(x_, tuple) and x_ and x_[0] == "hv"):
+                    assigned.setdefault(n_, []).append(norm_each(L.lift(x_), f.adts))
     ok_all = set(fields) <= set(assigned)
     ctx.check(ok_all, "from_board:assigns-every-field", "from_board leaves builder fields unassigned: %s" % sorted(set(fields) - set(assigned)), loc(fb),
               sample={"fields": fields})
@@ -227,6 +232,8 @@ def run(ctx):
             if v[2] == ("f", "en_passant") and val is None:
                 val = L.lift(v[3])
             v = v[1]
+        if val is None and isinstance(v, tuple) and v and v[0] == "agg":
+            val = L.lift(dict(v[4]).get("en_passant")) if dict(v[4]).get("en_passant") is not None else None
         ep_paths += 1
         if dv == 1:
             okp = val is not None and val[0] == "agg" and val[2] == "Some" and dict(val[4]).get("0") == want_some
